@@ -1,4 +1,448 @@
-import PysnarkModel.Model.Prog
+import PysnarkModel.Lemmas.GuardedInertRun
+import PysnarkModel.Lemmas.GuardedTransparentNest
+import PysnarkModel.Lemmas.GuardedSound
+import PysnarkModel.Lemmas.GuardedInv
+/-!
+# C07 — a false guard makes code inert; a true guard is transparent
+
+Quantifier: all guarded bodies over the instruction language of `Model/Prog.lean` (every operator in
+every operand-kind combination, every assertion and method, selection, arrays, nested regions), both
+guard values, all operand values (including those invalid for the body), every bit length,
+resolution and modulus.
+
+Vocabulary (Lemmas/GuardedInert*.lean, GuardedTransparent*.lean, GuardedSound.lean):
+
+* `FalseGuard s` : a guard of value 0 is active in `s` and error suppression is on (the tracer
+  invariant `Inv` makes the second follow from the first: `FalseGuard.of_inv`).
+* `Bad zd e` : `e` is a value-caused exception class: `AssertionError`, `ValueError`, and (when
+  `zd = false`) `ZeroDivisionError`.
+* `Inert zd p res Q m` : started in ANY false-guard state over modulus `p` / resolution `res`,
+  `m` either returns (result satisfying `Q`; guard, error mode, `LinComb.ONE`, bit length,
+  resolution, modulus unchanged) or raises an exception that is not `Bad zd`.
+* `TRel s1 s2` : the two states agree on `is_guard()`, error suppression, the VALUE of `LinComb.ONE`,
+  bit length, resolution, modulus; they may differ in whether a guard is installed.
+  `Tr R m1 m2` : from `TRel`-related states both runs return `R`-related results or both raise the
+  same exception class.  `vEq`/`VRel` : same kind, same Python-level value.
+
+Deviations of the code (which the model reproduces), each with a closed counterexample below:
+(1) division by zero raises before the guard is consulted [C07-zero-division-under-false-guard],
+    including `x >> secret`, whose divisor `2**secret` is computed from `LinComb.ONE` = the guard = 0;
+(2) `LinCombBool(x)` / `PrivValBool(c)` / `_ensurebool` on a non-boolean value raise
+    [C07-boolean-declaration-under-false-guard];
+(3) `backend.fieldinverse` raises `ZeroDivisionError` on a non-zero multiple of the modulus whatever
+    the guard (`check_zero`, hence `==`, `!=`, secret array indices; `LinComb / int`)
+    [C07-field-zero-under-false-guard].
+-/
 namespace Pysnark
-example : True := trivial
+
+/-! ## (a) a false guard makes code inert -/
+
+/-- the property at full strength: from a false-guard configuration no balanced body ever ends with
+a value-caused exception -/
+def C07_inert_full : Prop :=
+  ∀ (s : St) (regs : List Val) (frames : List GuardBak) (body : List Instr),
+    FalseGuard s → (∀ v ∈ regs, BoolV v) → balanced body 0 = true →
+    ∀ e j, (runAux body 0 regs frames s).err = some (e, j) → Bad false e = false
+
+/-- **programs.**  From any configuration in which a false guard is active (`d` inner regions
+entered since), a body that never leaves more regions than it enters and whose executed
+instructions avoid the listed deviations (`okAlong`: computable; `stepOk` spells them out) ends
+neither with `AssertionError` nor with `ValueError`, at any instruction.  (`ZeroDivisionError`:
+deviation (3), characterised exactly at the gadget level below.) -/
+theorem C07_inert_total (body : List Instr) (k : Nat) (regs : List Val) (frames : List GuardBak) (s : St) (d : Nat)
+    (hcfg : ICfg d s regs frames) (hbal : balanced body d = true) (hok : okAlong body regs frames s = true)
+    (e : Err) (j : Nat) (herr : (runAux body k regs frames s).err = some (e, j)) :
+    e ≠ .assertion ∧ e ≠ .value := by
+  have h := runAux_inert body k regs frames s d hcfg hbal hok e j herr
+  constructor <;> (intro he; subst he; simp [Bad] at h)
+
+/-- entering a region with a secret condition of value 0 from an unguarded configuration produces
+such a configuration -/
+theorem C07_inert_entry {regs regs' : List Val} {frames frames' : List GuardBak} {c : Nat} {s s' : St} {v : Val}
+    (hg : s.guard = none) (hregs : ∀ w ∈ regs, BoolV w)
+    (hc : (regD regs c).isSecretCond = true) (h0 : condValue (regD regs c) = 0)
+    (h : step regs frames (.genter c) s = .ok ((v, regs', frames'), s')) :
+    ICfg 0 s' (regs' ++ [v]) frames' := (genter_false_cfg hg hregs hc h0 h).1
+
+/-- a purely syntactic sufficient condition: bodies built from literals, non-boolean constructors,
+`+ - *`, unary operators, every non-comparing method (`assert_zero`, `assert_positive`,
+`assert_range`, `check_*`, `to_bits`, `val`, …), lists, arrays, nested regions -/
+theorem C07_inert_total_syntactic (body : List Instr) (hall : ∀ i ∈ body, i.alwaysOk = true) (k : Nat)
+    (regs : List Val) (frames : List GuardBak) (s : St) (d : Nat)
+    (hcfg : ICfg d s regs frames) (hbal : balanced body d = true)
+    (e : Err) (j : Nat) (herr : (runAux body k regs frames s).err = some (e, j)) :
+    e ≠ .assertion ∧ e ≠ .value := by
+  refine C07_inert_total body k regs frames s d hcfg hbal ?_ e j herr
+  clear herr hbal hcfg
+  induction body generalizing regs frames s with
+  | nil => rfl
+  | cons i is ih =>
+    unfold okAlong
+    rw [stepOk_of_alwaysOk (hall i (List.mem_cons_self ..)), Bool.true_and]
+    split
+    · exact ih (fun j hj => hall j (List.mem_cons_of_mem _ hj)) _ _ _
+    · rfl
+
+/-! ### every gadget, with `ZeroDivisionError` in the forbidden set (`zd = false`) -/
+section gadgets
+variable {p : Int} {res : Nat}
+
+/-- the guarded arm of `add_constraint` never raises, whatever `v·w − y` is -/
+theorem C07_inert_addConstraint (v w y : LinComb) (check : Bool) :
+    Inert false p res (fun _ => True) (addConstraint v w y check) := addConstraint_inert v w y check
+theorem C07_inert_checkPositive (x : LinComb) (bits : Option Nat) :
+    Inert false p res (fun r => r.value = 0 ∨ r.value = 1) (checkPositive x bits) := checkPositive_inert x bits
+theorem C07_inert_toBits (x : LinComb) (bits : Option Nat) : Inert false p res (BitsOfVal x) (toBits x bits) :=
+  toBits_inert x bits
+theorem C07_inert_assertZero (x : LinComb) : Inert false p res (fun _ => True) (assertZero x) := assertZero_inert x
+theorem C07_inert_assertPositive (x : LinComb) (bits : Option Nat) :
+    Inert false p res (fun _ => True) (assertPositive x bits) := assertPositive_inert x bits
+theorem C07_inert_assertNonzero (x : LinComb) : Inert false p res (fun _ => True) (assertNonzero x) :=
+  assertNonzero_inert x
+/-- the six comparison assertions and `assert_range`: all operand values -/
+theorem C07_inert_asserts (a b lo hi : LinComb) :
+    Inert false p res (fun _ => True) (assertLt a b) ∧ Inert false p res (fun _ => True) (assertLe a b) ∧
+    Inert false p res (fun _ => True) (assertEq a b) ∧ Inert false p res (fun _ => True) (assertNe a b) ∧
+    Inert false p res (fun _ => True) (assertGt a b) ∧ Inert false p res (fun _ => True) (assertGe a b) ∧
+    Inert false p res (fun _ => True) (assertRange a lo hi) :=
+  ⟨assertLt_inert a b, assertLe_inert a b, assertEq_inert a b, assertNe_inert a b, assertGt_inert a b,
+   assertGe_inert a b, assertRange_inert a lo hi⟩
+/-- the four order comparisons, with a secret or a public right operand: all operand values -/
+theorem C07_inert_order (a b : LinComb) (c : Int) :
+    Inert false p res (fun r => r.value = 0 ∨ r.value = 1) (ltLL a b) ∧
+    Inert false p res (fun r => r.value = 0 ∨ r.value = 1) (leLL a b) ∧
+    Inert false p res (fun r => r.value = 0 ∨ r.value = 1) (gtLL a b) ∧
+    Inert false p res (fun r => r.value = 0 ∨ r.value = 1) (geLL a b) ∧
+    Inert false p res (fun r => r.value = 0 ∨ r.value = 1) (ltLI a c) ∧
+    Inert false p res (fun r => r.value = 0 ∨ r.value = 1) (leLI a c) ∧
+    Inert false p res (fun r => r.value = 0 ∨ r.value = 1) (gtLI a c) ∧
+    Inert false p res (fun r => r.value = 0 ∨ r.value = 1) (geLI a c) :=
+  ⟨ltLL_inert a b, leLL_inert a b, gtLL_inert a b, geLL_inert a b, ltLI_inert a c, leLI_inert a c,
+   gtLI_inert a c, geLI_inert a c⟩
+/-- zero tests (`==`, `!=`, `check_zero`, `check_nonzero`): inert exactly when the tested value is
+not a non-zero multiple of the modulus (deviation (3)) -/
+theorem C07_inert_zero_tests (x a b : LinComb) (hx : FieldOk p x.value) (hab : FieldOk p (a.value - b.value)) :
+    Inert false p res (fun r => r.value = 0 ∨ r.value = 1) (checkZero x) ∧
+    Inert false p res (fun r => r.value = 0 ∨ r.value = 1) (checkNonzero x) ∧
+    Inert false p res (fun r => r.value = 0 ∨ r.value = 1) (eqLL a b) ∧
+    Inert false p res (fun r => r.value = 0 ∨ r.value = 1) (neLL a b) :=
+  ⟨checkZero_inert x (fun _ => hx), checkNonzero_inert x (fun _ => hx), eqLL_inert a b (fun _ => hab),
+   neLL_inert a b (fun _ => hab)⟩
+/-- over a prime modulus the side condition reads: the value is 0 or not a multiple of the modulus -/
+theorem C07_fieldOk_prime {q : Nat} (hq : q.Prime) (v : Int) : FieldOk q v ↔ (v = 0 ∨ ¬ (q : Int) ∣ v) :=
+  fieldOk_iff_prime hq v
+theorem C07_inert_mul (a b : LinComb) : Inert false p res (fun r => r.value = a.value * b.value) (mulLL a b) :=
+  mulLL_inert a b
+/-- exact division by a secret: inexact quotients are suppressed; a zero divisor is deviation (1) -/
+theorem C07_inert_truediv_secret (a : LinComb) {b : LinComb} (hb : b.value ≠ 0) :
+    Inert false p res (fun _ => True) (truedivLL a b) := truedivLL_inert a hb
+/-- exact division by a public integer: zero is deviation (1), a multiple of the modulus deviation (3) -/
+theorem C07_inert_truediv_public (a : LinComb) {c : Int} (hc : c ≠ 0) (hi : (Py.invert c p).isSome = true) :
+    Inert false p res (fun _ => True) (truedivLI a c) := truedivLI_inert a hc (fun _ => hi)
+/-- `divmod`, hence `//` and `%`: negative or oversized operands are suppressed; a zero divisor is
+deviation (1) -/
+theorem C07_inert_divmod (a : LinComb) {d : LinComb} (hd : d.value ≠ 0) :
+    Inert false p res (fun _ => True) (divmodLL a d) := divmodLL_inert a hd
+theorem C07_inert_pow_public (a : LinComb) (n : Nat) : Inert false p res (fun _ => True) (powLN a n) := powLN_inert a n
+/-- power with a secret exponent (any exponent value), over a prime modulus -/
+theorem C07_inert_pow_secret {q : Nat} (hq : q.Prime) (a e : LinComb) :
+    Inert false (q : Int) res (fun _ => True) (powLL a e) := powLL_inert a e (SmallOk.of_prime hq false)
+/-- shifts by a public count (a negative count of `<<` is Python's own `ValueError`) -/
+theorem C07_inert_shifts (a : LinComb) {n : Int} (hn : 0 ≤ n) (m : Int) :
+    Inert false p res (fun _ => True) (lshiftLI a n) ∧ Inert false p res (fun _ => True) (rshiftLI a m) :=
+  ⟨lshiftLI_inert a hn, rshiftLI_inert a m⟩
+/-- `&`, `|`, `^` with a secret or a public operand, `~`, `abs`, selection: all operand values -/
+theorem C07_inert_bitwise (a b c t f : LinComb) (k : Int) :
+    Inert false p res (fun _ => True) (andLL a b) ∧ Inert false p res (fun _ => True) (orLL a b) ∧
+    Inert false p res (fun _ => True) (xorLL a b) ∧ Inert false p res (fun _ => True) (andLI a k) ∧
+    Inert false p res (fun _ => True) (orLI a k) ∧ Inert false p res (fun _ => True) (xorLI a k) ∧
+    Inert false p res (fun _ => True) (invertL a) ∧ Inert false p res (fun _ => True) (absL a) ∧
+    Inert false p res (fun _ => True) (iteLLL c t f) :=
+  ⟨andLL_inert a b, orLL_inert a b, xorLL_inert a b, andLI_inert a k, orLI_inert a k, xorLI_inert a k,
+   invertL_inert a, absL_inert a, iteLLL_inert c t f⟩
+/-- `LinCombBool(x)`: inert exactly for boolean values (deviation (2)) -/
+theorem C07_inert_bool_declaration {x : LinComb} (c : Bool) (hx : x.value = 0 ∨ x.value = 1) :
+    Inert false p res (fun r => r = x) (mkBool x c) := mkBool_inert c hx
+/-- what `Inert` says, spelled out -/
+theorem C07_inert_unfold {α : Type} {zd : Bool} {Q : α → Prop} {m : M α} (h : Inert zd p res Q m) (s : St)
+    (hs : FalseGuard s) (hp : s.p = p) (hr : s.resolution = res) :
+    (∀ a s', m s = .ok (a, s') → Q a ∧ Same s s') ∧ (∀ e, m s = .error e → Bad zd e = false) := h s hs hp hr
+end gadgets
+
+/-! ### the deviations: closed counterexamples on the model (each replayed on the real code) -/
+def bn254 : Int := 21888242871839275222246405745257275088548364400416034343698204186575808495617
+
+/-- `PrivVal(7) / PrivVal(0)` under `guarded(PrivVal(0))` raises `ValueError` (finding
+C07-zero-division-under-false-guard; corpus/C07/known.case divzero) -/
+theorem C07_cex_zero_division :
+    (run (St.init bn254 8 8) [.lit (.int 7), .mk .priv 0, .lit (.int 0), .mk .priv 2, .lit (.int 0), .mk .priv 4,
+      .genter 5, .bin .truediv 1 3, .gleave]).err = some (.value, 7) := by decide +kernel
+
+/-- `LinCombBool(PrivVal(7))` under `guarded(PrivVal(0))` raises `ValueError` (finding
+C07-boolean-declaration-under-false-guard; corpus/C07/known.case boolnonbool) -/
+theorem C07_cex_boolean_declaration :
+    (run (St.init bn254 8 8) [.lit (.int 7), .mk .priv 0, .lit (.int 0), .mk .priv 2, .genter 3, .wrapb 1,
+      .gleave]).err = some (.value, 5) := by decide +kernel
+
+theorem C07_cex_bool_declaration :
+    (run (St.init bn254 8 8) [.lit (.int 7), .mk .priv 0, .lit (.int 0), .mk .priv 2, .genter 3, .wrapb 1,
+      .gleave]).err = some (.value, 5) := C07_cex_boolean_declaration
+
+/-- `PrivVal(p) == 0` under `guarded(PrivVal(0))` raises `ZeroDivisionError`: `check_zero` inverts a
+non-zero multiple of the modulus before any guard is consulted (deviation (3); finding
+C07-field-zero-under-false-guard; corpus/C07/known.case fieldzeroeq) -/
+theorem C07_cex_field_zero :
+    (run (St.init bn254 8 8) [.lit (.int bn254), .mk .priv 0, .lit (.int 0), .mk .priv 2, .genter 3, .lit (.int 0),
+      .bin .eq 1 5, .gleave]).err = some (.zerodiv, 6) := by decide +kernel
+
+/-- `PrivVal(8) >> PrivVal(1)` under `guarded(PrivVal(0))` raises `ValueError` ("Division by zero"):
+the divisor `2**PrivVal(1)` is a product that starts from `LinComb.ONE`, which is the guard
+(value 0) inside the region (an instance of deviation (1) outside the signature recorded for it) -/
+theorem C07_cex_rshift_secret :
+    (run (St.init bn254 8 8) [.lit (.int 8), .mk .priv 0, .lit (.int 1), .mk .priv 2, .lit (.int 0), .mk .priv 4,
+      .genter 5, .bin .rshift 1 3, .gleave]).err = some (.value, 7) := by decide +kernel
+
+/-- the unrestricted statement is false -/
+theorem C07_inert_full_false : ¬ C07_inert_full := by
+  intro h
+  let g : LinComb := ⟨0, [(Wire.priv 2, 1)]⟩
+  let s : St := { (St.init 97 8 8) with priv := [7, 0, 0], guard := some g, ignoreErrors := true, one := g }
+  have := h s [.int 7, .lc ⟨7, [(Wire.priv 0, 1)]⟩, .int 0, .lc ⟨0, [(Wire.priv 1, 1)]⟩] []
+    [.bin .truediv 1 3] ⟨rfl, g, rfl, rfl⟩ (by intro v hv; simp at hv; rcases hv with rfl | rfl | rfl | rfl <;> simp)
+    rfl .value 0 (by decide +kernel)
+  simp [Bad] at this
+
+/-! ## (b) … and leaves the constraint system satisfied by the recorded witness -/
+
+/-- `add_constraint` under a false guard keeps the tracer invariant (every constraint satisfied by
+the recorded witness, every live value coherent) for ALL operand values, with no call-site
+obligation at all -/
+theorem C07_inert_sat_addConstraint {s s' : St} {v w y g : LinComb} {check : Bool} {u : Unit} (hinv : Inv s)
+    (hv : Good s v) (hw : Good s w) (hy : Good s y) (hg : s.guard = some g) (g0 : g.value = 0)
+    (h : addConstraint v w y check s = .ok (u, s')) : Inv s' ∧ ∀ c ∈ s'.cons, Sat s'.p s'.assign c := by
+  obtain ⟨-, -, inv⟩ := addConstraint_false_guard_spec hinv hv hw hy hg g0 h
+  exact ⟨inv, inv.sat⟩
+
+/-- **programs**: a completed run of `pre; genter c; body; gleave; post` (either guard value,
+operands of the body invalid or not) ends with every constraint satisfied by the recorded witness
+and every register coherent.  Instance of the invariant proof (`run_inv_plain`); `Fragment`: regions
+not nested, no `/` in a program with a region, no `set ign` (see Spec/R1CS.lean: none is a known
+counterexample on the repaired tree). -/
+theorem C07_inert_sat (q : Nat) (hq : q.Prime) (bl res : Nat) (pre body post : List Instr) (c : Nat)
+    (hfrag : Fragment (pre ++ .genter c :: body ++ .gleave :: post))
+    (hlit : ∀ w, Instr.lit w ∈ pre ++ .genter c :: body ++ .gleave :: post → w.noSecret = true)
+    (out : Out) (hout : run (St.init q bl res) (pre ++ .genter c :: body ++ .gleave :: post) = out)
+    (herr : out.err = none) :
+    (∀ k ∈ out.st.cons, Sat out.st.p out.st.assign k) ∧ (∀ v ∈ out.regs, GoodV out.st v) ∧ Inv out.st := by
+  obtain ⟨inv, good⟩ := run_inv_plain q hq bl res _ hfrag hlit out hout herr
+  exact ⟨inv.sat, good, inv⟩
+
+/-- inside the region the invariant pins the error mode to the guard value: suppression is on
+exactly under a false guard -/
+theorem C07_false_guard_of_inv {s : St} (hinv : Inv s) {g : LinComb} (hg : s.guard = some g) (h0 : g.value = 0) :
+    FalseGuard s := FalseGuard.of_inv hinv hg h0
+
+/-! ## (c) … while the value selected from the other branch is still uniquely determined -/
+section select
+variable {p : ℕ} [Fact p.Prime] {s s' : St}
+
+/-- `if_then_else(c, t, f) = f + c·(t − f)`: under EVERY assignment `w'` that satisfies the
+constraint the selection emits and gives the condition the value 0, the result evaluates to the
+false branch, whatever the wires of `t` carry (they may be unconstrained wires created under a
+false guard) -/
+theorem C07_selected_false {c t f r : LinComb} {w' : Wire → Int} (hp : s.p = p) (ht : t.lc.WF) (hf : f.lc.WF)
+    (h : iteLLL c t f s = .ok (r, s')) (hw : NewSat s s' w') (hc : ev p w' c.lc = 0) :
+    ev p w' r.lc = ev p w' f.lc := iteLLL_selects_false hp ht hf h hw hc
+
+theorem C07_selected_true {c t f r : LinComb} {w' : Wire → Int} (hp : s.p = p) (ht : t.lc.WF) (hf : f.lc.WF)
+    (h : iteLLL c t f s = .ok (r, s')) (hw : NewSat s s' w') (hc : ev p w' c.lc = 1) :
+    ev p w' r.lc = ev p w' t.lc := iteLLL_selects_true hp ht hf h hw hc
+
+/-- uniqueness: two satisfying assignments that agree on the condition (0 or 1) and on the branch
+it selects agree on the result; they may disagree arbitrarily on the other branch -/
+theorem C07_selected_determined {c t f r : LinComb} {w1 w2 : Wire → Int} (hp : s.p = p) (ht : t.lc.WF)
+    (hf : f.lc.WF) (h : iteLLL c t f s = .ok (r, s')) (hw1 : NewSat s s' w1) (hw2 : NewSat s s' w2)
+    (hc : ev p w1 c.lc = ev p w2 c.lc) (hb : ev p w1 c.lc = 0 ∨ ev p w1 c.lc = 1)
+    (hsel : (ev p w1 c.lc = 0 → ev p w1 f.lc = ev p w2 f.lc) ∧ (ev p w1 c.lc = 1 → ev p w1 t.lc = ev p w2 t.lc)) :
+    ev p w1 r.lc = ev p w2 r.lc := iteLLL_determined hp ht hf h hw1 hw2 hc hb hsel
+end select
+
+/-- the wires of the inert branch really are unconstrained: under an assignment that gives the guard
+expression the value 0, the two constraints of a guarded `add_constraint` are satisfied by the
+choice of the dummy wire alone, whatever `v`, `w`, `y` evaluate to -/
+theorem C07_false_guard_enforces_nothing {p : ℕ} {s s' : St} {w' : Wire → Int} {v w y g : LinComb} {check : Bool}
+    {u : Unit} (hp : s.p = p) (hg : s.guard = some g) (hy : y.lc.WF)
+    (h : addConstraint v w y check s = .ok (u, s')) (h0 : ev p w' g.lc = 0)
+    (hd : (w' (.priv s.priv.length) : ZMod p) = ev p w' v.lc * ev p w' w.lc - ev p w' y.lc) :
+    NewSat s s' w' := addConstraint_guarded_false_free hp hg hy h h0 hd
+
+/-! ## (d) a true guard is transparent -/
+
+/-- **programs: same values, same errors** — the statement for whole programs.  `body`: any
+well-bracketed instruction list (regions nested to any depth, with guards of either value) without
+`set ign` and `set bitlength 0`; `post`: any code at all.  `s`: any state without a guard, with
+error checking on, bit length ≥ 1 and `LinComb.ONE` = 1; register `c` holds a secret (`LinComb` or
+`LinCombBool`) of value 1.  The guarded text `genter c; body; gleave; post` and the text in which the
+two markers are no-ops (`lit None`, keeping register numbers aligned) end with the same error at the
+same instruction or both complete; all registers are pairwise of the same kind with the same
+Python-level values; the final states agree on `is_guard()`, error mode, value of `LinComb.ONE`,
+bit length, resolution, modulus (`OutRel`). -/
+def C07_true_transparent_full : Prop :=
+  ∀ (body post : List Instr) (k : Nat) (regs : List Val) (frames : List GuardBak) (s : St) (c : Nat) (x : LinComb),
+    bracketed body 0 = true → (∀ i ∈ body, i.twinOk = true) →
+    s.guard = none → s.ignoreErrors = false → 1 ≤ s.bitlength → s.one.value = 1 →
+    (∃ cv, regs[c]? = some cv ∧ condOf cv = some x) → x.value = 1 →
+    OutRel (runAux (.lit .none :: (body ++ .lit .none :: post)) k regs frames s)
+      (runAux (.genter c :: (body ++ .gleave :: post)) k regs frames s)
+
+theorem C07_true_transparent_programs : C07_true_transparent_full :=
+  fun body post k regs frames s c _ hb hok hg hi hbl hone hc hx =>
+    region_transparent_nest (nest_of_bracketed post body 0 hb hok) k regs frames s c hg hi hbl hone hc hx
+
+/-- the same for flat bodies (no region inside the region, nothing after it), but in EVERY error mode
+(also when the user has switched error checking off) and at every bit length: `Twin is1 is2` says
+`is2 = body ++ [gleave]`, `is1 = body ++ [lit None]`, `body` free of region markers and `set ign` -/
+theorem C07_true_transparent {is1 is2 : List Instr} (htw : Twin is1 is2) (k : Nat) (regs : List Val)
+    (frames : List GuardBak) (s : St) (c : Nat) {x : LinComb}
+    (hg : s.guard = none) (hone : s.one.value = 1)
+    (hc : ∃ cv, regs[c]? = some cv ∧ condOf cv = some x) (hx : x.value = 1) :
+    OutRel (runAux (.lit .none :: is1) k regs frames s) (runAux (.genter c :: is2) k regs frames s) :=
+  region_transparent htw k regs frames s c hg hone hc hx
+
+/-- the same program from two configurations that agree on everything observable and whose active
+guards have equal values ends alike: what holds inside nested regions and after the region -/
+theorem C07_true_transparent_same (is : List Instr) (k : Nat) (regs1 regs2 : List Val)
+    (frames1 frames2 : List GuardBak) (s1 s2 : St) (hs : GRel s1 s2) (hregs : Forall2 VRel regs1 regs2)
+    (hf : Forall2 BakPair frames1 frames2) :
+    OutRel (runAux is k regs1 frames1 s1) (runAux is k regs2 frames2 s2) :=
+  runAux_same is k regs1 regs2 frames1 frames2 s1 s2 hs hregs hf
+
+/-- true outer guard, false inner guard: the nested region starts in a false-guard state, so part
+(a) applies to its body -/
+theorem C07_nested_false_in_true {cond : Val} {s s' : St} {bak : GuardBak} {g : LinComb}
+    (hg : s.guard = some g) (g1 : g.value = 1) (hi : s.ignoreErrors = false)
+    (hc : cond.isSecretCond = true) (h0 : condValue cond = 0) (h : addGuard cond s = .ok (bak, s')) :
+    FalseGuard s' := (addGuard_enter_false_nested hg g1 hi hc h0 h).1
+
+/-- one instruction (every operator, method, constructor, selection, array access) from related
+register files in related states: same error or related results -/
+theorem C07_true_transparent_step {regs1 regs2 : List Val} (hregs : Forall2 VRel regs1 regs2)
+    (f1 f2 : List GuardBak) {i : Instr} (hi : i.isPureOp = true) {s1 s2 : St} (hs : TRel s1 s2) :
+    TrOut (TStepRel f1 f2) s1 s2 (step regs1 f1 i s1) (step regs2 f2 i s2) := step_body_tr hregs f1 f2 hi s1 s2 hs
+
+/-- every binary operator on operands of every kind -/
+theorem C07_true_transparent_binop (op : BinOp) {a1 a2 b1 b2 : Val} (ha : VRel a1 a2) (hb : VRel b1 b2) :
+    Tr VRel (binopV op a1 b1) (binopV op a2 b2) := binopV_tr op ha hb
+
+/-- the gadgets whose hints depend on `is_guard()`: same hints, same checks, same results -/
+theorem C07_true_transparent_gadgets {x1 x2 y1 y2 : LinComb} (hx : vEq x1 x2) (hy : vEq y1 y2) (bits : Option Nat)
+    (c : Int) :
+    Tr vEq (checkPositive x1 bits) (checkPositive x2 bits) ∧
+    Tr (Forall2 vEq) (toBits x1 bits) (toBits x2 bits) ∧
+    Tr (fun _ _ => True) (assertZero x1) (assertZero x2) ∧
+    Tr (fun _ _ => True) (assertNonzero x1) (assertNonzero x2) ∧
+    Tr (fun _ _ => True) (assertPositive x1 bits) (assertPositive x2 bits) ∧
+    Tr vEq (truedivLL x1 y1) (truedivLL x2 y2) ∧ Tr vEq (truedivLI x1 c) (truedivLI x2 c) ∧
+    Tr vEqP (divmodLL x1 y1) (divmodLL x2 y2) ∧ Tr vEq (powLL x1 y1) (powLL x2 y2) ∧
+    Tr vEq (mkBool x1 true) (mkBool x2 true) :=
+  ⟨checkPositive_tr hx bits, toBits_tr hx bits, assertZero_tr hx, assertNonzero_tr hx, assertPositive_tr hx bits,
+   truedivLL_tr hx hy, truedivLI_tr hx c, divmodLL_tr hx hy, powLL_tr hx hy, mkBool_tr hx true⟩
+
+/-- `add_constraint` itself: the guarded arm never raises, the unguarded arm raises when the integer
+check fails; they agree given the call-site fact `hob` (established by every caller: `mkBool`,
+`assert_zero`, `check_positive`, `/`, `divmod`) -/
+theorem C07_true_transparent_addConstraint {v1 w1 y1 v2 w2 y2 : LinComb} {check : Bool} {s1 s2 : St}
+    (h : TRel s1 s2) (hv : vEq v1 v2) (hw : vEq w1 w2) (hy : vEq y1 y2)
+    (hob : check = true → s1.ignoreErrors = false → s1.isGuard = true → v1.value * w1.value = y1.value) :
+    TrOut (fun _ _ => True) s1 s2 (addConstraint v1 w1 y1 check s1) (addConstraint v2 w2 y2 check s2) :=
+  addConstraint_trOut h hv hw hy hob
+
+/-- **same enforcement.**  Under a guard `g` the call emits `v*w = y + dummy` and `g*dummy = 0`; for
+EVERY assignment `w'` satisfying both with the guard expression evaluating to 1, the relation the
+unguarded call emits, `v*w = y`, holds -/
+theorem C07_true_enforcement {p : ℕ} {s s' : St} {w' : Wire → Int} {v w y g : LinComb} {check : Bool} {u : Unit}
+    (hp : s.p = p) (hg : s.guard = some g) (hy : y.lc.WF) (h : addConstraint v w y check s = .ok (u, s'))
+    (hw : NewSat s s' w') (h1 : ev p w' g.lc = 1) :
+    ev p w' v.lc * ev p w' w.lc = ev p w' y.lc := addConstraint_guarded_enforces hp hg hy h hw h1
+
+/-- … and for every non-zero value of the guard expression over a prime field -/
+theorem C07_true_enforcement_nonzero {p : ℕ} [Fact p.Prime] {s s' : St} {w' : Wire → Int} {v w y g : LinComb}
+    {check : Bool} {u : Unit} (hp : s.p = p) (hg : s.guard = some g) (hy : y.lc.WF)
+    (h : addConstraint v w y check s = .ok (u, s')) (hw : NewSat s s' w') (h1 : ev p w' g.lc ≠ 0) :
+    ev p w' v.lc * ev p w' w.lc = ev p w' y.lc := addConstraint_guarded_enforces_ne hp hg hy h hw h1
+
+/-- the relation the unguarded call enforces, for comparison -/
+theorem C07_unguarded_enforcement {p : ℕ} {s s' : St} {w' : Wire → Int} {v w y : LinComb} {check : Bool} {u : Unit}
+    (hp : s.p = p) (hg : s.guard = none) (h : addConstraint v w y check s = .ok (u, s')) (hw : NewSat s s' w') :
+    ev p w' v.lc * ev p w' w.lc = ev p w' y.lc := addConstraint_unguarded_enforces hp hg h hw
+
+/-- closed form of what the guarded call appends -/
+theorem C07_guarded_emission {v w y g : LinComb} {check : Bool} {s s' : St} {u : Unit}
+    (hg : s.guard = some g) (h : addConstraint v w y check s = .ok (u, s')) :
+    s' = s.ext [v.value * w.value - y.value]
+      [(v.lc, w.lc, (y.add (fw s.priv.length (v.value * w.value - y.value))).lc),
+       (g.lc, [(Wire.priv s.priv.length, 1)], LC.zero)] := addConstraint_some_ok hg h
+
+
+/-! ## non-vacuity -/
+
+/-- the false guard of the examples: the third private wire, value 0 -/
+def exG : LinComb := ⟨0, [(Wire.priv 2, 1)]⟩
+/-- the configuration just after `genter` on `PrivVal(0)`, with `PrivVal(300)`, `PrivVal(-7)` in registers 1, 3 -/
+def exS : St := { (St.init 97 8 8) with priv := [300, -7, 0], guard := some exG, ignoreErrors := true, one := exG }
+def exRegs : List Val :=
+  [.int 300, .lc ⟨300, [(Wire.priv 0, 1)]⟩, .int (-7), .lc ⟨-7, [(Wire.priv 1, 1)]⟩, .int 0, .lc exG, .none]
+/-- out-of-range comparison, failing assertions, inexact division, out-of-range bit decomposition, a
+nested region, a failing range assertion, `~`, `abs`, an out-of-range secret array index -/
+def exBody07 : List Instr :=
+  [.bin .lt 1 3, .call .assertEq 1 [3], .bin .truediv 1 3, .call .toBits 3 [], .genter 1, .call .assertRange 1 [2, 4],
+   .un .invert 3, .gleave, .un .abs 3, .bin .floordiv 1 3, .arr [1, 3], .aget 17 1, .call .assertNonzero 5 []]
+
+/-- (a): the hypotheses of `C07_inert_total` hold for a concrete body full of invalid operands, and
+the run completes -/
+example : ICfg 0 exS exRegs [⟨none, false, oneSafe⟩] ∧ balanced exBody07 0 = true ∧
+    okAlong exBody07 exRegs [⟨none, false, oneSafe⟩] exS = true ∧
+    (runAux exBody07 7 exRegs [⟨none, false, oneSafe⟩] exS).err = none := by
+  refine ⟨⟨⟨rfl, exG, rfl, rfl⟩, ?_, Nat.zero_le _, by simp⟩, by decide, by decide +kernel, by decide +kernel⟩
+  intro v hv
+  simp only [exRegs, List.mem_cons, List.mem_nil_iff, or_false] at hv
+  rcases hv with rfl | rfl | rfl | rfl | rfl | rfl | rfl <;> simp
+
+/-- (b): a program of the fragment with a false-guard region around failing assertions completes;
+`C07_inert_sat` applies to it -/
+def exProgSat : List Instr :=
+  [.lit (.int 300), .mk .priv 0, .lit (.int (-7)), .mk .priv 2, .lit (.int 0), .mk .priv 4, .genter 5,
+   .bin .lt 1 3, .call .assertEq 1 [3], .call .assertRange 1 [2, 4], .bin .mod 1 3, .gleave, .bin .add 1 3]
+
+example : Fragment exProgSat ∧ (run (St.init 97 8 8) exProgSat).err = none ∧
+    (run (St.init 97 8 8) exProgSat).st.cons.length = 97 := by
+  refine ⟨⟨by decide, by decide, fun _ => by decide⟩, by decide +kernel, by decide +kernel⟩
+
+/-- (c): a selection runs, whatever its operands -/
+example (c t f : LinComb) (s : St) : ∃ r s', iteLLL c t f s = .ok (r, s') := iteLLL_total c t f s
+
+/-- (d): a concrete region with guard value 1: the hypotheses of `C07_true_transparent` hold, the
+guarded run raises the `AssertionError` of the failing `assert_lt` (instruction 10), as
+the unguarded twin does -/
+def exT : St := { (St.init 97 8 8) with priv := [5, 3, 1, 0] }
+def exTRegs : List Val :=
+  [.int 5, .lc ⟨5, [(Wire.priv 0, 1)]⟩, .int 3, .lc ⟨3, [(Wire.priv 1, 1)]⟩, .int 1, .lc ⟨1, [(Wire.priv 2, 1)]⟩,
+   .lc ⟨0, [(Wire.priv 3, 1)]⟩]
+def exTBody : List Instr := [.bin .lt 1 3, .bin .floordiv 1 3, .call .assertLt 1 [3]]
+
+/-- a body with a region of its own (false inner guard around a failing assertion), followed by code
+after the region: the hypotheses of `C07_true_transparent_programs` hold -/
+def exTBody2 : List Instr := [.bin .lt 1 3, .genter 6, .call .assertEq 1 [3], .gleave, .bin .mul 1 3]
+example : bracketed exTBody2 0 = true ∧ (∀ i ∈ exTBody2, i.twinOk = true) ∧ exT.ignoreErrors = false ∧
+    1 ≤ exT.bitlength ∧
+    (runAux (.genter 5 :: (exTBody2 ++ .gleave :: [.bin .add 1 3])) 7 exTRegs [] exT).err = none ∧
+    (runAux (.lit .none :: (exTBody2 ++ .lit .none :: [.bin .add 1 3])) 7 exTRegs [] exT).err = none := by
+  refine ⟨by decide, by decide, rfl, by decide, by decide +kernel, by decide +kernel⟩
+
+example : Twin (exTBody ++ [.lit .none]) (exTBody ++ [.gleave]) ∧ exT.guard = none ∧ exT.one.value = 1 ∧
+    (∃ cv, exTRegs[5]? = some cv ∧ condOf cv = some ⟨1, [(Wire.priv 2, 1)]⟩) ∧
+    (runAux (.genter 5 :: (exTBody ++ [.gleave])) 7 exTRegs [] exT).err = some (.assertion, 10) ∧
+    (runAux (.lit .none :: (exTBody ++ [.lit .none])) 7 exTRegs [] exT).err = some (.assertion, 10) := by
+  refine ⟨.op rfl (.op rfl (.op rfl .done)), rfl, rfl, ⟨_, rfl, rfl⟩, by decide +kernel, by decide +kernel⟩
+
 end Pysnark
